@@ -4,6 +4,7 @@ import re
 
 import vlib
 from corr import facade as corr_facade
+from corr import facade_hist
 
 PID = "C13"
 
@@ -31,6 +32,8 @@ def findings(summary, cases, results):
 
 
 def replay(obj):
+    if obj.get("kind") == "facade-history":
+        return facade_hist.replay(obj)
     if obj.get("kind") != "c13-call":
         return False, "replay names a broken obligation, not an input: %s" % obj.get("what")
     summary, _ = vlib.translate()
@@ -68,6 +71,7 @@ def run(rep, tier, seed, summary):
     bad, cases, results = corr_facade.run(rep, tier, seed, summary)
     known = {k["id"]: k for k in vlib.load_known() if k.get("property") == PID and k.get("status") == "known"}
     hits = (findings(summary, cases, results) if results else []) + doc_findings(summary)
+    hits += facade_hist.run(rep, tier, seed, {"once", "opcode", "buffers", "history"}, PID)
     new = [h for h in hits if h["id"] not in known]
     for h in hits:
         if h["id"] in known:
